@@ -89,6 +89,9 @@ def build_lookup_formulas():
         put('=INDEX(L!B:B,MATCH(K1,L!A:A,0))', {'func': 'INDEX-MATCH', 'mode': 'exact', 'area': 'whole-column'})
         put(f'=INDEX(B1:B{n},MATCH(K1,A1:A{n},0))', {'func': 'INDEX-MATCH', 'mode': 'exact'})
         put(f'=INDEX(A1:C{n},MATCH(K1,A1:A{n},0),3)', {'func': 'INDEX-MATCH', 'mode': 'exact', 'col': 3})
+        # the lookup guarded by IFERROR whose fallback is a lookup that fails: the fallback is only looked at when needed
+        put(f'=IFERROR(INDEX(B1:B{n},MATCH(K1,A1:A{n},0)),INDEX(B1:B{n},MATCH("no such key",A1:A{n},0)))',
+            {'func': 'INDEX-MATCH', 'mode': 'exact', 'guard': 'iferror-failing-fallback'})
         row += 1
     return cells, meta
 
